@@ -14,13 +14,11 @@ HARNESS = os.path.join(VERIF, "harness")
 WORK = os.path.join(VERIF, ".work")
 REPO = "/repo"
 KANI_LIB_C = os.path.expanduser("~/.kani/kani-0.68.0/library/kani/kani_lib.c")
-GUARD_CFG = "clvmr_verif"
+GUARD_FEATURE = "verif-hooks"  # cargo feature of /repo enabled by harness/Cargo.toml
 
 ENV = dict(os.environ)
 ENV["CARGO_NET_OFFLINE"] = "true"
 ENV.pop("RUSTUP_TOOLCHAIN", None)
-# hooks in /repo are guarded by --cfg clvmr_verif; kani-driver appends to RUSTFLAGS it is given
-ENV["RUSTFLAGS"] = (ENV.get("RUSTFLAGS", "") + " --cfg " + GUARD_CFG).strip()
 
 CBMC_BASE = ["--no-malloc-may-fail", "--no-undefined-shift-check", "--no-signed-overflow-check"]
 CBMC_DEFAULT = CBMC_BASE + ["--nan-check", "--no-self-loops-to-assumptions", "--no-pointer-primitive-check"]
@@ -135,17 +133,18 @@ def show_loops(goto):
 
 
 def resolve_unwindset(spec, loops):
-    """spec: list of (file-suffix or function substring[:line], n). Returns cbmc --unwindset value."""
+    """spec: ordered list of (key, n); key = substring of the loop's function name or a source-file suffix,
+    optionally '@line'. Each loop takes the FIRST key that matches it. Returns the cbmc --unwindset value."""
     items = []
-    used = []
-    for key, n in spec:
-        hit = False
-        for lp in loops:
+    hits = {i: False for i in range(len(spec))}
+    for lp in loops:
+        for i, (key, n) in enumerate(spec):
             k, _, ln = key.partition("@")
             if (k in lp["function"] or lp["file"].endswith(k)) and (not ln or int(ln) == lp["line"]):
                 items.append(f"{lp['id']}:{n}")
-                hit = True
-        used.append((key, n, hit))
+                hits[i] = True
+                break
+    used = [(spec[i][0], spec[i][1], hits[i]) for i in range(len(spec))]
     return ",".join(items), used
 
 
@@ -338,7 +337,6 @@ def native_replay_bin(profile):
     except OSError:
         pass
     env["RUSTUP_TOOLCHAIN"] = tc
-    env["RUSTFLAGS"] = "--cfg " + GUARD_CFG
     td = os.path.join(WORK, "native")
     cmd = ["cargo", "build", "--offline", "--features", "replay", "--bin", "replay", "--target-dir", td]
     if profile == "release":
